@@ -103,7 +103,10 @@ def _case(draw, tier):
                 _ensure(v[1])
     _ensure(term)
     wrapper = draw(st.sampled_from(["an_term", "an_entity", "a_extra", "with_var"]))
-    return {"ents": recs, "doms": doms, "scalars": scalars, "term": term, "wrapper": wrapper,
+    # one From(...) object handed to several terms: an earlier term of this class over the same object, and every nested
+    # term over the same domain
+    share_from = draw(st.sampled_from([None, None, None, "Ent", "EntSub", "Other"]))
+    return {"share_from": share_from, "ents": recs, "doms": doms, "scalars": scalars, "term": term, "wrapper": wrapper,
             "dom_kind": draw(st.sampled_from(["list", "tuple", "gen"])),
             "decl": draw(st.sampled_from(["let", "from", "from_entity"]))}
 
@@ -168,8 +171,9 @@ def _mk(cont, kind):
     return list(cont)
 
 
-def _build_term(term, conts, kind, U):
-    """Inside symbolic_mode: the predicate-form term."""
+def _build_term(term, conts, kind, U, froms=None):
+    """Inside symbolic_mode: the predicate-form term.  With `froms` (a dict), ONE From object per domain is built and
+    handed to every term over that domain (src = From(world.bodies); Handle(src); Container(src))."""
     cls = CLASSES[term["cls"]]
 
     def val(v):
@@ -177,8 +181,16 @@ def _build_term(term, conts, kind, U):
             return dec(v[1])
         if v[0] == "uvar":
             return U[v[1]]
-        return _build_term(v[1], conts, kind, U)
-    return cls(From(_mk(conts[term["dom"]], kind)), *[val(v) for v in term["pos"]], **{f: val(v) for f, v in term["kw"]})
+        return _build_term(v[1], conts, kind, U, froms)
+    args = [val(v) for v in term["pos"]]
+    kwargs = {f: val(v) for f, v in term["kw"]}
+    if froms is not None:
+        if term["dom"] not in froms:
+            froms[term["dom"]] = From(_mk(conts[term["dom"]], kind))
+        src = froms[term["dom"]]
+    else:
+        src = From(_mk(conts[term["dom"]], kind))
+    return cls(src, *args, **kwargs)
 
 
 def _build_explicit(term, conts, kind, U, conds):
@@ -257,7 +269,12 @@ def check(case) -> Outcome:
         with symbolic_mode():
             U = {j: let(CLASSES["Ent"], domain=_mk(conts[j], kind)) for j in uv}
             if form == "predicate":
-                t = _build_term(term, conts, kind, U)
+                froms = {} if (case.get("share_from") and kind != "gen") else None
+                if froms is not None:
+                    # ... and an earlier term over the same From object (of the same or of another class) was evaluated
+                    froms[term["dom"]] = From(_mk(conts[term["dom"]], kind))
+                    earlier = an(entity(CLASSES[case["share_from"]](froms[term["dom"]])))
+                t = _build_term(term, conts, kind, U, froms)
                 if wrapper == "an_term":
                     q = an(t)
                 elif wrapper == "an_entity":
